@@ -873,6 +873,11 @@ def verdict (cfg : Cfg) (e : Entry) (t : Trace) (s : St) (r : Res) : Bool :=
   else streamShape cfg e s r && terminalTags cfg e s r && sinksAgree cfg e s r
        && breakerEventsShape s
 
+/-- The runs C14 speaks about.  Three guards, nothing else:
+    `hasLoop` — "a policy with a retry component"; `endsNormally` — "ends normally (value, failure,
+    deferral or abort)", see there; `!attemptHookFault` — an attempt hook or `abort_if` itself raised
+    (DESIGN §6.2: e.g. `on_attempt_end` raising AbortRetryError after `success` makes `execute()` emit
+    `aborted` as well).  A call the breaker rejected is NOT skipped: it must produce no retry-level event. -/
 def guard (cfg : Cfg) (e : Entry) (t : Trace) (r : Res) : Bool :=
   hasLoop cfg e && endsNormally e t r && !Mon.attemptHookFault t
 
